@@ -376,14 +376,50 @@ def main(tier, seed, replay=None):
             deep_case = {"sg": rdflib.Graph().parse(data=ds_text, format="turtle"), "data": rdflib.Graph().parse(data=dd_text, format="turtle")}
             for fmt in GRAPH_FORMATS + ["human", "table"]:
                 cli_jobs.append((deep_case, ref_deep, fmt, ["-s", dsp_path, "-f", fmt, dd_path], {}))
+        # non-ASCII text (Latin-1 letters, CJK, an astral character) in values and messages, printed to the standard output and written
+        # with -o FILE: the file's bytes are the serialised report (UTF-8, as serialize_report_graph returns it)
+        na_shapes = ("@prefix sh: <http://www.w3.org/ns/shacl#> . @prefix ex: <http://ex.org/> .\n"
+                     "ex:NA a sh:NodeShape ; sh:targetClass ex:T ; sh:property [ sh:path ex:name ; sh:maxLength 3 ; sh:message \"Name zu lang, bitte k\u00fcrzen\"@de , \"\u957f\u3059\u304e\" ] .\n")
+        na_data = rdflib.Graph()
+        for k_, txt in enumerate(["J\u00fcrgen M\u00fcller", "\u65e5\u672c\u8a9e\u306e\u540d\u524d", "smile \U0001F600 face", "na\u00efve \u20ac", "plain"]):
+            na_data.add((EX["u%d" % k_], RDF.type, EX.T))
+            na_data.add((EX["u%d" % k_], EX.name, Literal(txt, lang="de") if k_ == 0 else Literal(txt)))
+        ns_path, nd_path = os.path.join(d, "na_shapes.ttl"), os.path.join(d, "na_data.nt")
+        open(ns_path, "w", encoding="utf-8").write(na_shapes)
+        na_data.serialize(destination=nd_path, format="nt")
+        ref_na = S.run_validate(nd_path, ns_path)
+        if ref_na[0] == "ok":
+            na_case = {"sg": rdflib.Graph().parse(data=na_shapes, format="turtle"), "data": na_data}
+            for fmt in GRAPH_FORMATS + ["human", "table"]:
+                cli_jobs.append((na_case, ref_na, fmt, ["-s", ns_path, "-f", fmt, nd_path], {}))
+                cli_jobs.append((na_case, ref_na, fmt, ["-s", ns_path, "-f", fmt, "-o", os.path.join(d, "na_out_%s.txt" % fmt), nd_path], {}))
+            stats["non_ascii_cli_cases"] = 2
+        # the same for one of the ordinary cases: what -o FILE holds is what the standard output would have shown
+        for job in [j_ for j_ in cli_jobs if "-o" not in j_[3]][:7]:
+            cli_jobs.append(job[:3] + (job[3][:-1] + ["-o", os.path.join(d, "o_%d.txt" % len(cli_jobs)), job[3][-1]], job[4]))
+
+        def run_job(job):
+            code, out, err = c16.cli_run(job[3])
+            if "-o" in job[3]:
+                try:
+                    out = open(job[3][job[3].index("-o") + 1], "rb").read().decode("utf-8")
+                except Exception as e:
+                    out = None
+                    err = "the file written by -o FILE cannot be read as UTF-8: %s: %s" % (type(e).__name__, str(e)[:120])
+            return code, out, err
+
         with ThreadPoolExecutor(max_workers=12) as ex:
-            outs = list(ex.map(lambda job: c16.cli_run(job[3]), cli_jobs))
+            outs = list(ex.map(run_job, cli_jobs))
         for (c, ref, fmt, args, opts), (code, out, err) in zip(cli_jobs, outs):
             stats["cli_runs"] += 1
             want = 0 if ref[1] else 1
             if code != want:
-                diffs.append((c, "`python -m pyshacl -f %s` exit status %s, the API verdict is conforms=%s" % (fmt, code, ref[1]), ref, None, opts))
+                diffs.append((c, "`python -m pyshacl %s` exit status %s, the API verdict is conforms=%s: %s" % (" ".join(a_ for a_ in args if a_.startswith("-")), code, ref[1], err[-200:]), ref, None, opts))
                 continue
+            if out is None:
+                diffs.append((c, "`python -m pyshacl -f %s -o FILE`: %s" % (fmt, err), ref, None, opts))
+                continue
+            stats["cli_runs_to_a_file"] = stats.get("cli_runs_to_a_file", 0) + (1 if "-o" in args else 0)
             if fmt == "human":
                 v, nres = parse_human(out)
                 if v != ref[1] or nres != len(ref[2]):
@@ -402,7 +438,11 @@ def main(tier, seed, replay=None):
                         continue
                     diffs.append((c, "the output of -f %s does not parse: %s" % (fmt, str(e)[:150]), ref, None, opts))
                     continue
-                o1 = ("ok", None, S.parse_report(g1))
+                try:
+                    o1 = ("ok", None, S.parse_report(g1))
+                except Exception as e:
+                    diffs.append((c, "what `-f %s%s` wrote is no validation report (%d triples, %d report nodes): %s" % (fmt, " -o FILE" if "-o" in args else "", len(g1), len(list(g1.subjects(RDF.type, SH.ValidationReport))), err[-300:]), ref, None, opts))
+                    continue
                 conf = [o for o in g1.objects(None, SH.conforms)]
                 same = len(conf) == 1 and bool(conf[0].value) == ref[1] and keys_iso(o1) == keys_iso(ref)
                 if same and fmt != "json-ld":
